@@ -16,6 +16,7 @@ EXPLANATION = (
     "and applies `binary` only after the octave fold; (VIEW) in-place arithmetic on a column happens only after the "
     "column was copied by fancy indexing (no write-through into the input matrix); (RANGE) the piano-range slice spans 88 "
     "rows starting at 21 and agrees with the inverse; (F4a) the inverse builds rows matching its dtype."
+    ' (ROUND-all) every frame of the inverse passes the scan that closes notes which stopped sounding.'
 )
 NOT_DECIDED = [
     "cell-exact content of the roll, collisions (max), margins, end_time (run-time values)",
